@@ -1,5 +1,13 @@
 import sys
+import traceback
 
-from vsim.runner import main
-
-sys.exit(main())
+try:
+    from vsim.runner import main
+    rc = main()
+except SystemExit:
+    raise
+except BaseException:  # noqa: BLE001 - a crash of the harness is never a verdict
+    traceback.print_exc()
+    print("HARNESS-ERROR: the check itself crashed (exit 2); no verdict", file=sys.stderr)
+    rc = 2
+sys.exit(rc)
